@@ -470,6 +470,27 @@ fn search(op: &str, want: Option<&str>, pat: Option<&str>, excl: &[String], max_
         }
     }
 }
+/// one pass over every tape up to `max_len`: the first failing tape of each property (after exclusions)
+fn collect(op: &str, excl: &[String], max_len: usize, budget: &mut u64, prefix: &mut Vec<u8>, hits: &mut std::collections::BTreeMap<String, (Vec<u8>, Outcome)>) {
+    if *budget == 0 { return; }
+    *budget -= 1;
+    let o = run(op, prefix);
+    for (p, wh) in o.violations.iter() {
+        if excl.iter().any(|x| norm(wh).contains(&norm(x))) { continue; }
+        if !hits.contains_key(p) {
+            hits.insert(p.clone(), (prefix.clone(), Outcome { violations: o.violations.clone(), log: o.log.clone(), exhausted: o.exhausted, panicked: o.panicked.clone() }));
+        }
+    }
+    if let Some(n) = o.exhausted {
+        if prefix.len() < max_len {
+            for c in 0..n as u8 {
+                prefix.push(c);
+                collect(op, excl, max_len, budget, prefix, hits);
+                prefix.pop();
+            }
+        }
+    }
+}
 fn main() {
     std::panic::set_hook(Box::new(|_| {}));
     let a: Vec<String> = std::env::args().collect();
@@ -497,6 +518,19 @@ fn main() {
                 Some((t, o)) => { out(&t, &o, total - budget); std::process::exit(1); }
                 None => { println!("{}", serde_json::json!({"tape": null, "violations": [], "runs": total - budget, "runs_deepest_level": last_level, "budget_exhausted": budget == 0, "max_len": len})); std::process::exit(0); }
             }
+        }
+        Some("collect") => {
+            // replay collect <scenario> [--len N] [--budget N] [--exclude text]..
+            let op = &a[2];
+            let mut excl: Vec<String> = vec![]; let mut len = 10usize; let mut budget: u64 = 3_000_000;
+            let mut i = 3;
+            while i + 1 < a.len() { match a[i].as_str() { "--exclude" => excl.push(a[i + 1].clone()), "--len" => len = a[i + 1].parse().unwrap(), "--budget" => budget = a[i + 1].parse().unwrap(), _ => {} } i += 2; }
+            let total = budget;
+            let mut hits = std::collections::BTreeMap::new();
+            collect(op, &excl, len, &mut budget, &mut vec![], &mut hits);
+            let h: serde_json::Map<String, serde_json::Value> = hits.iter().map(|(p, (t, o))| (p.clone(), serde_json::json!({"tape": t, "violations": o.violations.iter().map(|(p, w)| serde_json::json!({"property": p, "what": w})).collect::<Vec<_>>(), "history": o.log}))).collect();
+            println!("{}", serde_json::json!({"hits": h, "runs": total - budget, "budget_exhausted": budget == 0, "max_len": len}));
+            std::process::exit(if hits.is_empty() { 0 } else { 1 });
         }
         Some("threads") => {
             // replay threads block combine2 | replay threads stress <take1|take2|merge2|merge3|combine2> <runs>
